@@ -4,7 +4,7 @@
    commit a050122, SpellCheck's word cache, any eviction).  The statements quantify over every rule set
    (pattern_rel, struct_pre, struct_post), every suggestion function, every configuration / token-kind type and
    hash, every history and every eviction schedule. *)
-Require Import Base Cache CacheProofs.
+Require Import Base Overlap Cache CacheProofs C05Entry C05EntryProofs C05Lru C05LruProofs.
 
 (* `chunk.span()` (minimum and maximum over the starts and ends of the chunk's tokens, Span::new) never panics *)
 Theorem C05_hull_total : forall (kind : Type) (ts : list (tok kind)), exists o : option span, hull_of ts = Ok o.
@@ -210,3 +210,180 @@ Example C05_old_key_refuted :
   nth 1 (ex_fresh h 0%N) (Panic PFuel) = Ok (nth 1 (ex_spec h 0%N) []) /\
   nth 1 (ex_outs (ex_run h (fresh 0%N))) [] = [(0, 0, 5%N); (4, 6, 3%N); (14, 16, 3%N)].
 Proof. cbv zeta. repeat split; vm_compute; reflexivity. Qed.
+
+(* ====================================================================================================
+   THE ENTRY POINTS (Model/C05Entry.v): harper_wasm::Linter::lint and harper-ls
+   DocumentState::generate_diagnostics, as they compose  temp = config.clone(); config.fill_with_curated();
+   LintGroup::lint (= Cache.lint_doc: chunk cache, spelling cache, any eviction); config = temp;
+   remove_overlaps (wasm only; Overlap.remove_overlaps); IgnoredLints::remove_ignored  — over histories of
+   set-config | lint | ignore_lint | import / clear ignored lints | rebuild of the LintGroup over another
+   dictionary (synchronize_lint_dict, update_document, did_change_configuration) | eviction.
+   Quantified over every rule set (now also a function of the dictionary), every fill_with_curated, every
+   context-hash function, both entry points.
+   ==================================================================================================== *)
+
+(* refinement to the CACHE-FREE specification: under the two injectivity hypotheses (on the triples with the
+   EFFECTIVE configuration fill(stored)), every history on either entry point runs without panic, every lint
+   step answers espec_lint(entry, abstract state, document) where the abstract state is (dictionary, stored
+   configuration, ignored context hashes) — nothing else of the past is observable —, and the concrete state
+   ends in the abstract state the specification computes (the stored configuration survives every lint:
+   the restore after fill_with_curated) *)
+Theorem C05_entry_refinement : forall (cfg kind dict : Type) (cfg_hash : cfg -> N) (tok_hash : list (tok kind) -> N) (fill : cfg -> cfg)
+    (pattern_rel : dict -> text -> list (tok kind) -> cfg -> list clint) (struct_pre struct_post : dict -> cfg -> doc kind -> list clint)
+    (spell_on : cfg -> bool) (suggest : dict -> text -> list text) (spell_mk : text -> span -> list text -> clint)
+    (ctx : doc kind -> clint -> N) (e : entry) (h : list (eop cfg kind dict)) (dc0 : dict) (c0 : cfg),
+  ehist_wf cfg kind dict h ->
+  hash_inj_on cfg kind cfg_hash (ehist_triples cfg kind dict fill h c0) ->
+  tok_hash_inj_on cfg kind tok_hash (ehist_triples cfg kind dict fill h c0) ->
+  exists st : estate cfg dict,
+    run_ehist cfg kind dict cfg_hash tok_hash fill pattern_rel struct_pre struct_post spell_on suggest spell_mk ctx e h (efresh dc0 c0) = Ok (st, espec_hist cfg kind dict fill pattern_rel struct_pre struct_post spell_on suggest spell_mk ctx e h (mkastate dc0 c0 [])) /\
+    abs_of cfg dict st = abs_after cfg kind dict ctx h (mkastate dc0 c0 []).
+Proof. exact entry_refinement. Qed.
+Check C05_entry_refinement : forall (cfg kind dict : Type) (cfg_hash : cfg -> N) (tok_hash : list (tok kind) -> N) (fill : cfg -> cfg)
+    (pattern_rel : dict -> text -> list (tok kind) -> cfg -> list clint) (struct_pre struct_post : dict -> cfg -> doc kind -> list clint)
+    (spell_on : cfg -> bool) (suggest : dict -> text -> list text) (spell_mk : text -> span -> list text -> clint)
+    (ctx : doc kind -> clint -> N) (e : entry) (h : list (eop cfg kind dict)) (dc0 : dict) (c0 : cfg),
+  ehist_wf cfg kind dict h ->
+  hash_inj_on cfg kind cfg_hash (ehist_triples cfg kind dict fill h c0) ->
+  tok_hash_inj_on cfg kind tok_hash (ehist_triples cfg kind dict fill h c0) ->
+  exists st : estate cfg dict,
+    run_ehist cfg kind dict cfg_hash tok_hash fill pattern_rel struct_pre struct_post spell_on suggest spell_mk ctx e h (efresh dc0 c0) = Ok (st, espec_hist cfg kind dict fill pattern_rel struct_pre struct_post spell_on suggest spell_mk ctx e h (mkastate dc0 c0 [])) /\
+    abs_of cfg dict st = abs_after cfg kind dict ctx h (mkastate dc0 c0 []).
+Print Assumptions C05_entry_refinement.
+
+(* ... and that is what a freshly built entry point in the same abstract state answers *)
+Theorem C05_entry_fresh_spec : forall (cfg kind dict : Type) (cfg_hash : cfg -> N) (tok_hash : list (tok kind) -> N) (fill : cfg -> cfg)
+    (pattern_rel : dict -> text -> list (tok kind) -> cfg -> list clint) (struct_pre struct_post : dict -> cfg -> doc kind -> list clint)
+    (spell_on : cfg -> bool) (suggest : dict -> text -> list text) (spell_mk : text -> span -> list text -> clint)
+    (ctx : doc kind -> clint -> N) (e : entry) (a : astate cfg dict) (d : doc kind),
+  doc_wf d ->
+  hash_inj_on cfg kind cfg_hash (doc_triples cfg kind (fill (a_cfg a)) d) ->
+  tok_hash_inj_on cfg kind tok_hash (doc_triples cfg kind (fill (a_cfg a)) d) ->
+  efresh_lint cfg kind dict cfg_hash tok_hash fill pattern_rel struct_pre struct_post spell_on suggest spell_mk ctx e a d = Ok (espec_lint cfg kind dict fill pattern_rel struct_pre struct_post spell_on suggest spell_mk ctx e a d).
+Proof. exact entry_fresh_spec. Qed.
+Check C05_entry_fresh_spec : forall (cfg kind dict : Type) (cfg_hash : cfg -> N) (tok_hash : list (tok kind) -> N) (fill : cfg -> cfg)
+    (pattern_rel : dict -> text -> list (tok kind) -> cfg -> list clint) (struct_pre struct_post : dict -> cfg -> doc kind -> list clint)
+    (spell_on : cfg -> bool) (suggest : dict -> text -> list text) (spell_mk : text -> span -> list text -> clint)
+    (ctx : doc kind -> clint -> N) (e : entry) (a : astate cfg dict) (d : doc kind),
+  doc_wf d ->
+  hash_inj_on cfg kind cfg_hash (doc_triples cfg kind (fill (a_cfg a)) d) ->
+  tok_hash_inj_on cfg kind tok_hash (doc_triples cfg kind (fill (a_cfg a)) d) ->
+  efresh_lint cfg kind dict cfg_hash tok_hash fill pattern_rel struct_pre struct_post spell_on suggest spell_mk ctx e a d = Ok (espec_lint cfg kind dict fill pattern_rel struct_pre struct_post spell_on suggest spell_mk ctx e a d).
+Print Assumptions C05_entry_fresh_spec.
+
+(* HISTORY INDEPENDENCE: two histories that end in the same abstract state (dictionary, stored configuration,
+   ignore list) — whatever documents in whatever languages were linted, whatever was toggled, ignored,
+   rebuilt or evicted on the way — answer the next document identically *)
+Theorem C05_entry_history_independent : forall (cfg kind dict : Type) (cfg_hash : cfg -> N) (tok_hash : list (tok kind) -> N) (fill : cfg -> cfg)
+    (pattern_rel : dict -> text -> list (tok kind) -> cfg -> list clint) (struct_pre struct_post : dict -> cfg -> doc kind -> list clint)
+    (spell_on : cfg -> bool) (suggest : dict -> text -> list text) (spell_mk : text -> span -> list text -> clint)
+    (ctx : doc kind -> clint -> N) (e : entry) (h1 h2 : list (eop cfg kind dict)) (dc1 : dict) (c1 : cfg) (dc2 : dict) (c2 : cfg) (d : doc kind)
+    (evs1 : list (text * N * N -> bool)) (sevs1 : list (text -> bool)) (evs2 : list (text * N * N -> bool)) (sevs2 : list (text -> bool)),
+  let g1 := h1 ++ [ELint d evs1 sevs1] in
+  let g2 := h2 ++ [ELint d evs2 sevs2] in
+  ehist_wf cfg kind dict g1 -> ehist_wf cfg kind dict g2 ->
+  hash_inj_on cfg kind cfg_hash (ehist_triples cfg kind dict fill g1 c1) ->
+  tok_hash_inj_on cfg kind tok_hash (ehist_triples cfg kind dict fill g1 c1) ->
+  hash_inj_on cfg kind cfg_hash (ehist_triples cfg kind dict fill g2 c2) ->
+  tok_hash_inj_on cfg kind tok_hash (ehist_triples cfg kind dict fill g2 c2) ->
+  abs_after cfg kind dict ctx h1 (mkastate dc1 c1 []) = abs_after cfg kind dict ctx h2 (mkastate dc2 c2 []) ->
+  exists (st1 st2 : estate cfg dict) (o1 o2 : list (list clint)) (out : list clint),
+    run_ehist cfg kind dict cfg_hash tok_hash fill pattern_rel struct_pre struct_post spell_on suggest spell_mk ctx e g1 (efresh dc1 c1) = Ok (st1, o1 ++ [out]) /\
+    run_ehist cfg kind dict cfg_hash tok_hash fill pattern_rel struct_pre struct_post spell_on suggest spell_mk ctx e g2 (efresh dc2 c2) = Ok (st2, o2 ++ [out]) /\
+    out = espec_lint cfg kind dict fill pattern_rel struct_pre struct_post spell_on suggest spell_mk ctx e (abs_after cfg kind dict ctx h1 (mkastate dc1 c1 [])) d.
+Proof. exact entry_history_independent. Qed.
+Check C05_entry_history_independent : forall (cfg kind dict : Type) (cfg_hash : cfg -> N) (tok_hash : list (tok kind) -> N) (fill : cfg -> cfg)
+    (pattern_rel : dict -> text -> list (tok kind) -> cfg -> list clint) (struct_pre struct_post : dict -> cfg -> doc kind -> list clint)
+    (spell_on : cfg -> bool) (suggest : dict -> text -> list text) (spell_mk : text -> span -> list text -> clint)
+    (ctx : doc kind -> clint -> N) (e : entry) (h1 h2 : list (eop cfg kind dict)) (dc1 : dict) (c1 : cfg) (dc2 : dict) (c2 : cfg) (d : doc kind)
+    (evs1 : list (text * N * N -> bool)) (sevs1 : list (text -> bool)) (evs2 : list (text * N * N -> bool)) (sevs2 : list (text -> bool)),
+  let g1 := h1 ++ [ELint d evs1 sevs1] in
+  let g2 := h2 ++ [ELint d evs2 sevs2] in
+  ehist_wf cfg kind dict g1 -> ehist_wf cfg kind dict g2 ->
+  hash_inj_on cfg kind cfg_hash (ehist_triples cfg kind dict fill g1 c1) ->
+  tok_hash_inj_on cfg kind tok_hash (ehist_triples cfg kind dict fill g1 c1) ->
+  hash_inj_on cfg kind cfg_hash (ehist_triples cfg kind dict fill g2 c2) ->
+  tok_hash_inj_on cfg kind tok_hash (ehist_triples cfg kind dict fill g2 c2) ->
+  abs_after cfg kind dict ctx h1 (mkastate dc1 c1 []) = abs_after cfg kind dict ctx h2 (mkastate dc2 c2 []) ->
+  exists (st1 st2 : estate cfg dict) (o1 o2 : list (list clint)) (out : list clint),
+    run_ehist cfg kind dict cfg_hash tok_hash fill pattern_rel struct_pre struct_post spell_on suggest spell_mk ctx e g1 (efresh dc1 c1) = Ok (st1, o1 ++ [out]) /\
+    run_ehist cfg kind dict cfg_hash tok_hash fill pattern_rel struct_pre struct_post spell_on suggest spell_mk ctx e g2 (efresh dc2 c2) = Ok (st2, o2 ++ [out]) /\
+    out = espec_lint cfg kind dict fill pattern_rel struct_pre struct_post spell_on suggest spell_mk ctx e (abs_after cfg kind dict ctx h1 (mkastate dc1 c1 [])) d.
+Print Assumptions C05_entry_history_independent.
+
+(* non-vacuity: one history on both entry points — lint, ignore one of the lints (its context recurs at another
+   offset: both disappear), lint again (all cache hits), another configuration, a rebuild over another
+   dictionary (other rules, empty caches), ignore list cleared, eviction of everything, rebuild back.
+   Wasm: sorted, the lint (1,2,7) overlapped by (0,2,5) is dropped by remove_overlaps; Ls: LintGroup order. *)
+Example C05_entry_refinement_nonvacuous :
+  ehist_wf N N N ee_hist /\
+  hash_inj_on N N (fun c => c) (ehist_triples N N N ee_fill ee_hist 0%N) /\
+  tok_hash_inj_on N N ex_tok_hash (ehist_triples N N N ee_fill ee_hist 0%N) /\
+  ee_outs (ee_run Wasm ee_hist (efresh 0%N 0%N)) =
+    [[(0, 2, 5%N); (4, 6, 3%N); (11, 12, 7%N); (14, 16, 3%N)];
+     [(0, 2, 5%N); (4, 6, 3%N); (14, 16, 3%N)];
+     [(0, 2, 5%N); (4, 6, 3%N); (14, 16, 3%N)];
+     [(0, 2, 5%N); (4, 6, 3%N); (14, 16, 3%N)];
+     [(0, 2, 5%N); (4, 6, 3%N); (11, 12, 7%N); (14, 16, 3%N)]] /\
+  ee_outs (ee_run Ls ee_hist (efresh 0%N 0%N)) =
+    [[(0, 2, 5%N); (4, 6, 3%N); (14, 16, 3%N); (1, 2, 7%N); (11, 12, 7%N)];
+     [(0, 2, 5%N); (4, 6, 3%N); (14, 16, 3%N)];
+     [(0, 2, 5%N); (4, 6, 3%N); (14, 16, 3%N)];
+     [(0, 2, 5%N); (4, 6, 3%N); (14, 16, 3%N)];
+     [(0, 2, 5%N); (4, 6, 3%N); (14, 16, 3%N); (1, 2, 7%N); (11, 12, 7%N)]] /\
+  (forall e, match ee_run e ee_hist (efresh 0%N 0%N) with Ok (_, outs) => outs = ee_spec e ee_hist (mkastate 0%N 0%N []) | Panic _ => False end).
+Proof.
+  split; [|split; [|split; [|split; [|split]]]].
+  - unfold ee_hist. cbn [ehist_wf]. repeat split; apply ex_doc_wf.
+  - intros x y Hx Hy. exact (fun e => e).
+  - intros x y Hx Hy. vm_compute in Hx, Hy.
+    repeat (destruct Hx as [Hx|Hx]; [subst x|]); try destruct Hx;
+    repeat (destruct Hy as [Hy|Hy]; [subst y|]); try destruct Hy; vm_compute; intros E; try reflexivity; discriminate E.
+  - vm_compute. reflexivity.
+  - vm_compute. reflexivity.
+  - intros []; vm_compute; reflexivity.
+Qed.
+
+(* ====================================================================================================
+   SpellCheck.word_cache with the REAL replacement policy of the `lru` crate (Model/C05Lru.v): a recency list,
+   get promotes, put evicts the least recently used entry at capacity.  The contract it rests on — the uncached
+   suggestions are a function of the word for a fixed (dictionary, dialect) — is the type of `suggest`
+   (monitor spell_fun).
+   ==================================================================================================== *)
+
+(* for every capacity, every cache content whose entries are uncached results, every sequence of rejected words:
+   SpellCheck::lint emits the lints of the cache-free specification (promotion and eviction are unobservable in
+   the output), every entry left is an uncached result, one hit/miss flag per word, and the cache never grows
+   beyond its capacity *)
+Theorem C05_lru_words_transparent : forall (suggest : text -> list text) (spell_mk : text -> span -> list text -> clint) (cap : nat) (ws : list (span * text))
+    (sm : list (text * list text)),
+  spell_ok suggest sm ->
+  exists (sm' : list (text * list text)) (hits : list bool),
+    lru_lint_words suggest spell_mk cap ws sm = (sm', spec_words suggest spell_mk ws, hits) /\
+    spell_ok suggest sm' /\ length hits = length ws /\ (1 <= cap -> length sm <= cap -> length sm' <= cap).
+Proof. exact lru_words_transparent. Qed.
+Check C05_lru_words_transparent : forall (suggest : text -> list text) (spell_mk : text -> span -> list text -> clint) (cap : nat) (ws : list (span * text))
+    (sm : list (text * list text)),
+  spell_ok suggest sm ->
+  exists (sm' : list (text * list text)) (hits : list bool),
+    lru_lint_words suggest spell_mk cap ws sm = (sm', spec_words suggest spell_mk ws, hits) /\
+    spell_ok suggest sm' /\ length hits = length ws /\ (1 <= cap -> length sm <= cap -> length sm' <= cap).
+Print Assumptions C05_lru_words_transparent.
+
+(* a long-lived SpellCheck answers every document of every sequence as a fresh one would *)
+Theorem C05_lru_run_transparent : forall (suggest : text -> list text) (spell_mk : text -> span -> list text -> clint) (cap : nat) (docs : list (list (span * text)))
+    (sm : list (text * list text)),
+  spell_ok suggest sm -> lru_run suggest spell_mk cap docs sm = map (spec_words suggest spell_mk) docs.
+Proof. exact lru_run_transparent. Qed.
+Check C05_lru_run_transparent : forall (suggest : text -> list text) (spell_mk : text -> span -> list text -> clint) (cap : nat) (docs : list (list (span * text)))
+    (sm : list (text * list text)),
+  spell_ok suggest sm -> lru_run suggest spell_mk cap docs sm = map (spec_words suggest spell_mk) docs.
+Print Assumptions C05_lru_run_transparent.
+
+(* non-vacuity, with real evictions: capacity 2, words a b a c b a — `a` is promoted by its hit, so `c` evicts `b`,
+   `b` misses again and evicts `a`, `a` misses again; the lints are those of the specification all the same *)
+Example C05_lru_nonvacuous :
+  (let '(sm, out, hits) := lru_lint_words ex_suggest ex_mk 2 lx_words [] in (map fst sm, hits, out)) =
+    ([[97]; [98]]%N, [false; false; true; false; false; false], spec_words ex_suggest ex_mk lx_words) /\
+  spell_ok ex_suggest (@nil (text * list text)).
+Proof. split; [vm_compute; reflexivity|intros ? ? []]. Qed.
